@@ -2,12 +2,14 @@ HOOKS = {
     "guard": "OSMIUM_VERIF_HOOKS",
     "enable": "harnesses are compiled from /repo's working tree with -I/repo/include -DOSMIUM_VERIF_HOOKS (header-only library)",
     "baseline_off_cmd": "cmake --build /repo/_build && ctest --test-dir /repo/_build -j8 --timeout 900",
-    "source_commits": [],
+    "source_commits": ["6ec57f2", "0c60619"],
     "add_only": True,
 }
 ENGINES = [
-    {"name": "benum", "path": "engine/benum", "serves_properties": ["C13"],
+    {"name": "benum", "path": "engine/benum", "serves_properties": ["C13", "C16"],
      "kind_free_text": "bounded exhaustive enumeration runtime: rank<->case bijections, 16-way sharding, fork isolation with progress cell, line protocol to the driver"},
+    {"name": "vsched", "path": "engine/vsched", "serves_properties": ["C19"],
+     "kind_free_text": "cooperative scheduler by link-time interposition of pthread mutex/cond/create/join, futex syscall and clock_gettime + stateless DFS explorer with iterative deviation bounding, 16 forked workers sharing a work stack, determinism re-runs, deadlock/livelock/hang detection, replay of recorded choice sequences"},
     {"name": "driver", "path": "engine/driver", "serves_properties": ["C13"],
      "kind_free_text": "bin/check: builds harnesses from /repo's working tree (content-hash cache), runs tiers under a deadline, replays violations, applies known_findings.txt, writes evidence"},
 ]
@@ -15,6 +17,22 @@ NOTES = ("All checks decide by exhaustive enumeration inside stated bounds (see 
          "failed (build or harness error) and is not a verdict.")
 NOT_APPLICABLE = {}
 CHECKS = {
+    "C16": {
+        "engine": "benum", "level": "exploration",
+        "technique": "exhaustive enumeration of all pairs/triples of a boundary-heavy object grid and of all short (type,id) streams against a lexicographic-key reference",
+        "text": "All triples over the full attribute grid are run through the real comparators (strict-weak-order axioms + agreement with an independent key), "
+                "all id pairs/triples over a wide 64-bit id set through id_order, all streams up to length 4-5 through CheckOrder, all short sequences through "
+                "ObjectPointerCollection::sort + CheckOrder; complete inside the grid, so a wrong comparison on any grid value combination is found.",
+        "note": "Grid values are boundary values (zero/negative/positive ids up to +-2^63-1, version and timestamp extremes); values between grid points are not enumerated. Comparators using timestamps are judged only on objects with set timestamps, as the property states.",
+    },
+    "C19": {
+        "engine": "vsched", "level": "model_checking",
+        "technique": "stateless model checking of the real Queue/Pool code: preemption-bounded (CHESS-style) and delay-bounded exhaustive schedule exploration under a controlled scheduler that owns all pthread/futex synchronisation",
+        "text": "Closed 2-5 thread drivers on the real Queue<int> and Pool are executed under every schedule with at most k deviations (k iterated 0..2/3 with free switches at blocking "
+                "points, 0..3/4 under delay bounding), including every notify_one waiter choice and timed-wait timeout; loss, duplication, per-producer FIFO, the size bound, "
+                "shutdown wake-up, exactly-once task execution, future results and ~Pool joining are checked on each complete execution; deadlock/livelock/hang are detected by the scheduler.",
+        "note": "Sequentially consistent scheduler (the only atomics are seq_cst flags with hooks; non-atomic sharing is policed by the separate TSan pass); no spurious wake-ups; schedules with more deviations than the completed bound are not covered; bounds capped by the deadline are reported as such.",
+    },
     "C13": {
         "engine": "benum", "level": "exploration",
         "technique": "exhaustive finite-domain enumeration (all short strings over the coordinate alphabet, every exponent, all 2^32 coordinates/timestamps in thorough) against an exact decimal/calendar reference",
